@@ -17,6 +17,7 @@ SELECTCMD = 'pymap/parsing/command/select.py'
 SESS = 'pymap/backend/session.py'
 BMBX = 'pymap/backend/mailbox.py'
 DICT = 'pymap/backend/dict/mailbox.py'
+MAILDIR = 'pymap/backend/maildir/mailbox.py'
 FATTR = 'pymap/parsing/specials/fetchattr.py'
 SEL = 'pymap/selected.py'
 STATE = 'pymap/imap/state.py'
@@ -48,6 +49,7 @@ def check(ctx) -> None:
     r106(ctx)
     r107(ctx)
     r108(ctx)
+    r109(ctx)
 
 
 def r101(ctx) -> None:
@@ -469,3 +471,80 @@ def r108(ctx) -> None:
             'backend call',
             'MOVE and COPY diverge in more than the backend call (and the '
             'read-only-source refusal): ' + '; '.join(diff)[:300])
+
+
+def r109(ctx) -> None:
+    R = ctx.rule('R10.9', '"*" and flag arithmetic use CURRENT state', 4)
+    sm = ctx.proj.cls(SEL, 'SynchronizedMessages')
+    up, rm = sm.own_method('_update'), sm.own_method('_remove')
+    if up is None or rm is None:
+        raise AnchorError('SynchronizedMessages._update/_remove vanished')
+
+    def written(f) -> set[str]:
+        out = set()
+        for x in walk_local(f.node):
+            tg = []
+            if isinstance(x, (ast.Assign, ast.AugAssign, ast.AnnAssign,
+                              ast.Delete)):
+                tg = targets_of(x)
+            for t in tg:
+                while isinstance(t, ast.Subscript):
+                    t = t.value
+                if isinstance(t, ast.Attribute) and is_name(t.value, 'self'):
+                    out.add(t.attr)
+            if isinstance(x, ast.Call) and isinstance(x.func, ast.Attribute) \
+                    and isinstance(x.func.value, ast.Attribute) and \
+                    is_name(x.func.value.value, 'self') and x.func.attr in (
+                        'add', 'remove', 'discard', 'insert', 'append',
+                        'update', 'clear', 'pop', 'extend'):
+                out.add(x.func.value.attr)
+        return out
+    wu, wr = written(up), written(rm)
+    only_add = sorted(wu - wr)
+    R.check(not only_add, up, up.node,
+            'every membership field maintained on insertion is maintained '
+            'on removal',
+            f'{only_add} is written by _update (arrival) but never by '
+            f'_remove (expunge): a high-water mark instead of the current '
+            f'maximum — after the highest-UID message is expunged "*" in a '
+            f'UID set still names the expunged UID, so UID STORE/FETCH/COPY '
+            f'* addresses nothing instead of the last message',
+            f'_update writes {sorted(wu)}, _remove writes {sorted(wr)}')
+    for prop, src in (('max_uid', '_sorted'), ('exists', None)):
+        g = sm.find_method(prop, kind='getter') if hasattr(
+            sm, 'find_method') else None
+        g = g or sm.own_method(prop)
+        if g is None:
+            raise AnchorError(f'SynchronizedMessages.{prop} vanished')
+        reads = {x.attr for x in walk_local(g.node)
+                 if isinstance(x, ast.Attribute) and is_name(x.value, 'self')}
+        R.check(bool(reads) and reads <= wr, g, g.node,
+                f'{prop} is computed from fields that removal maintains',
+                f'{prop} reads {sorted(reads - wr)}, which _remove never '
+                f'updates: stale after an expunge')
+    # STORE arithmetic: mode.apply(<flags read from the store NOW>, operand)
+    n = 0
+    for rel, cn in ((DICT, 'MailboxData'), (MAILDIR, 'MailboxData')):
+        f = ctx.proj.cls(rel, cn).own_method('update')
+        if f is None:
+            raise AnchorError(f'{rel} update vanished')
+        params = set(f.params())
+        for c in calls_in(f.node, 'apply'):
+            if not c.args:
+                continue
+            n += 1
+            used = set()
+            for v in resolve_local(f, c.args[0]):
+                used |= {x.id for x in ast.walk(v) if isinstance(x, ast.Name)}
+            stale = sorted(used & (params - {'self'}))
+            R.check(not stale, f, c,
+                    f'{rel.split("/")[2]} update: new flags = apply(flags '
+                    f'stored now, operand)',
+                    f'the old flags given to `{txt(c)}` come from the '
+                    f'caller\'s cached copy ({stale}), not from the store: '
+                    f'flag changes made by another session since this '
+                    f'session last synchronised are overwritten (+FLAGS '
+                    f'(\\Draft) drops a \\Deleted another session just '
+                    f'set)')
+    if n < 2:
+        raise AnchorError(f'only {n} mode.apply() call(s) found in update()')
